@@ -1054,6 +1054,7 @@ package desync
 //@ ghost var $rid map[int]ChunkID
 //@ ghost var $rp int
 
+//@ ghost var $wsrc *bytes.Reader
 //@ func (w writer) WriteUint64
 //@   prop C04 C13
 //@   trusted ensures
@@ -1063,6 +1064,13 @@ package desync
 //@   ensures r1 == nil ==> forall k int :: 0 <= k && k < len(values) ==> $w[old($wn) + 8*k] == values[k]
 //@   ensures forall j int :: j < old($wn) ==> $w[j] == old($w[j])
 //@   ensures $wn >= old($wn) && r0 >= 0
+//# proved of the body: value k is encoded as little endian into bytes 8k..8k+8 of one buffer of 8*len(values)
+//# bytes, and that buffer is what is copied to this writer
+//@   loop 1: invariant len(b) == 8 * len(values)
+//@   oncall binary.littleEndian.PutUint64: requires $arg1 == values[$i] && len($arg0) == 8 && base($arg0) == base(b) && off($arg0) == off(b) + 8 * $i
+//@   oncall NewReader: requires len($arg0) == 8 * len(values) && base($arg0) == base(b) && off($arg0) == off(b)
+//@   ghost@after:NewReader $wsrc = $r0
+//@   oncall Copy: requires $arg1 == $wsrc
 
 //@ func (w writer) WriteID
 //@   prop C04 C13
@@ -1072,7 +1080,13 @@ package desync
 //@   ensures r1 == nil ==> r0 == 32 && $wn == old($wn) + 32 && $wid[old($wn)] == c
 //@   ensures forall j int :: j < old($wn) ==> $wid[j] == old($wid[j])
 //@   ensures $wn >= old($wn) && r0 >= 0
+//# proved of the body: the 32 bytes of the ID are what is copied to this writer
+//@   oncall NewReader: requires len($arg0) == 32
+//@   ghost@after:NewReader $wsrc = $r0
+//@   oncall Copy: requires $arg1 == $wsrc
 
+//@ ghost var $rbuf ref
+//@ ghost var $le int
 //@ func (r reader) ReadUint64
 //@   prop C04 C19
 //@   safety C19
@@ -1082,6 +1096,13 @@ package desync
 //@   modifies $rp, $consumed
 //@   ensures r1 == nil ==> r0 == $r[old($rp)] && $rp == old($rp) + 8 && $consumed == old($consumed) + 8
 //@   ensures $consumed >= old($consumed) && ($consumed == old($consumed) || $consumed < 1<<40)
+//# what is proved of the body (the link above stays assumed): exactly eight bytes are read from this reader into
+//# a buffer, that buffer is decoded as little endian, and the decoded value is what is returned
+//@   oncall ReadFull: requires len($arg1) == 8
+//@   oncall binary.littleEndian.Uint64: requires len($arg0) == 8 && base($arg0) == $rbuf
+//@   ghost@after:ReadFull $rbuf = base($a1)
+//@   ghost@after:Uint64 $le = $r0
+//@   assert@returned $ret1 == nil ==> $ret0 == $le
 
 //@ func (r reader) ReadID
 //@   prop C04 C19
@@ -1092,6 +1113,10 @@ package desync
 //@   modifies $rp, $consumed
 //@   ensures r1 == nil ==> r0 == $rid[old($rp)] && $rp == old($rp) + 32 && $consumed == old($consumed) + 32
 //@   ensures $consumed >= old($consumed) && ($consumed == old($consumed) || $consumed < 1<<40)
+//# proved of the body: exactly 32 bytes are read and that buffer is what is converted into the ID that is returned
+//@   oncall ReadFull: requires len($arg1) == 32
+//@   ghost@after:ReadFull $rbuf = base($a1)
+//@   oncall ChunkIDFromSlice: requires len($arg0) == 32 && base($arg0) == $rbuf && off($arg0) == 0
 
 //# layout of the index header and the chunk table, written from the property statement:
 //# 48-byte header (size 48, type, flags, min, avg, max); table header (MAXUINT64, type), per chunk
